@@ -106,6 +106,12 @@ def gen_program(rng):
         if not any(l.startswith("l%d:" % i) for l in L):
             L.append("l%d:" % i)
     if rng.chance(0.3):
+        # character constants kept in symbols and used as strings later: their type must not depend on who looks at them
+        pos = rng.randint(5, len(L))
+        ch = rng.choice("BQxz")
+        L[pos:pos] = ["md%s\tequ '%s'" % (ch, ch), "sep%s\tset ', '" % ch, "\tswitch md%s\n\tcase '%s'\n\t%s 1\n\telsecase\n\t%s 2,3\n\tendcase" % (ch, ch, db, db),
+                      "\t%s md%s+'C'" % (db, ch), "\t%s \"x\"+sep%s+\"y\"" % (db, ch), "ev%s\teval 'ab'" % ch, "\t%s ev%s+\"c\"" % (db, ch)]
+    if rng.chance(0.3):
         # preprocessor definitions whose meaning changes in the course of the file
         pos = rng.randint(5, len(L))
         L[pos:pos] = ["#define LVL %d" % rng.below(200), "\t%s LVL" % db, "#undef LVL", "#define LVL %d" % rng.below(200), "\t%s LVL" % db]
